@@ -466,7 +466,8 @@ Proof. intros U H. apply in_map_snd in H. destruct H as (q & Hq & <-). unfold un
 
 Lemma jw_nonneg s ae aec : unit_vals ae -> unit_vals aec -> Forall (fun w => 0 <= w) (jw s ae aec).
 Proof.
-  intros Ue Uec. apply jw_Forall. intros a b Ha Hb. apply opr_weight_nonneg; eapply unit_vals_in; eassumption.
+  intros Ue Uec. apply jw_Forall. intros a b Ha Hb.
+  apply opr_weight_nonneg; [exact (unit_vals_in ae a Ue Ha)|exact (unit_vals_in aec b Uec Hb)].
 Qed.
 
 (* the joint membership sum is positive - the division 1/sum is defined - for every operator except the bounded product *)
@@ -474,7 +475,7 @@ Theorem joint_sum_positive s ae aec :
   opr s <> 3%nat -> ae <> [] -> aec <> [] -> unit_vals ae -> unit_vals aec -> 0 < jsum s ae aec.
 Proof.
   intros Hk Ne Nec Ue Uec. unfold jsum. apply sum_pos.
-  - apply jw_Forall. intros a b Ha Hb. apply opr_weight_pos; [exact Hk| |]; eapply unit_vals_in; eassumption.
+  - apply jw_Forall. intros a b Ha Hb. apply opr_weight_pos; [exact Hk|exact (unit_vals_in ae a Ue Ha)|exact (unit_vals_in aec b Uec Hb)].
   - unfold jw. apply wmat_nonempty; intros E; apply map_eq_nil in E; congruence.
 Qed.
 
